@@ -229,6 +229,54 @@ static void sub_huge(const args_t *a, long c, rng_t *r)
 	case_hash(len);
 }
 
+/* ------------------------------------------------------------------ the CPU-feature test itself, on emulated CPU models: with CPUID faulting (arch_prctl
+ * ARCH_SET_CPUID) every cpuid instruction traps; the handler executes the real instruction and rewrites the SSE4.1 / SSE4.2 bits of leaf 1.  The library's
+ * my_crc32c_sse42_supported() must answer "SSE4.2 present" exactly for the models that have the SSE4.2 bit. */
+#if defined(__x86_64__)
+#include <sys/syscall.h>
+#include <ucontext.h>
+#ifndef ARCH_SET_CPUID
+#define ARCH_SET_CPUID 0x1012
+#endif
+static volatile uint32_t emu_and = 0xffffffffu, emu_or = 0; static volatile int emu_hits;
+static void cpuid_trap(int sig, siginfo_t *si, void *ucv)
+{
+	(void)sig; (void)si;
+	ucontext_t *uc = ucv; greg_t *g = uc->uc_mcontext.gregs;
+	const uint8_t *ip = (const uint8_t *)g[REG_RIP];
+	if (ip[0] != 0x0f || ip[1] != 0xa2) { signal(SIGSEGV, SIG_DFL); return; }       /* a real fault: let it happen again with the default action */
+	uint32_t leaf = (uint32_t)g[REG_RAX], sub = (uint32_t)g[REG_RCX], a, b, c, d;
+	syscall(SYS_arch_prctl, ARCH_SET_CPUID, 1UL);
+	__asm__ volatile("cpuid" : "=a"(a), "=b"(b), "=c"(c), "=d"(d) : "a"(leaf), "c"(sub));
+	syscall(SYS_arch_prctl, ARCH_SET_CPUID, 0UL);
+	if (leaf == 1) { c = (c & emu_and) | emu_or; emu_hits++; }
+	g[REG_RAX] = a; g[REG_RBX] = b; g[REG_RCX] = c; g[REG_RDX] = d; g[REG_RIP] += 2;
+}
+#endif
+static void sub_cpuid(const args_t *a, long c, rng_t *r)
+{
+	(void)a; (void)c; (void)r;
+#if defined(__x86_64__)
+	struct sigaction sa, old; memset(&sa, 0, sizeof sa); sa.sa_sigaction = cpuid_trap; sa.sa_flags = SA_SIGINFO | SA_NODEFER;
+	sigaction(SIGSEGV, &sa, &old);
+	if (syscall(SYS_arch_prctl, ARCH_SET_CPUID, 0UL) != 0) { sigaction(SIGSEGV, &old, NULL); STAT("cpuid.faulting_unavailable_on_this_machine"); return; }
+	for (int model = 0; model < 4; model++) {
+		int sse41 = model & 1, sse42 = (model >> 1) & 1;
+		emu_and = ~((1u << 19) | (1u << 20)); emu_or = (sse41 ? 1u << 19 : 0) | (sse42 ? 1u << 20 : 0);
+		int before = emu_hits;
+		bool says = __real_my_crc32c_sse42_supported();
+		if (emu_hits == before) { STAT("cpuid.library_did_not_execute_cpuid"); continue; }
+		statf(1, "cpuid.model.sse41=%d.sse42=%d.library_says_%s", sse41, sse42, says ? "supported" : "unsupported");
+		if (says && !sse42) viol("C17/hardware-path-selected-on-a-cpu-without-sse42", "CPU model with SSE4.1=%d and without SSE4.2: my_crc32c_sse42_supported() answers true, the crc32 instruction would be used on a CPU that lacks it", sse41);
+		STAT("cpuid.models_emulated");
+	}
+	emu_and = 0xffffffffu; emu_or = 0;
+	syscall(SYS_arch_prctl, ARCH_SET_CPUID, 1UL);
+	sigaction(SIGSEGV, &old, NULL);
+#endif
+	case_hash(0xC9D1D);
+}
+
 int main(int argc, char **argv)
 {
 	args_t a;
@@ -253,6 +301,7 @@ int main(int argc, char **argv)
 	else if (!strcmp(a.sub, "bytepos")) f = sub_bytepos;
 	else if (!strcmp(a.sub, "random")) f = sub_random;
 	else if (!strcmp(a.sub, "huge")) f = sub_huge;
+	else if (!strcmp(a.sub, "cpuid")) f = sub_cpuid;
 	else return 98;
 	if (want_sample()) sample("%s: mtbl_crc32c, my_crc32c_slicing%s compared with a bit-at-a-time CRC-32C on exact-size ASan heap buffers", a.sub, have_sse42 ? ", my_crc32c_sse42" : " (sse4.2 NOT available: hardware path not covered)");
 	return run_cases(&a, f);
